@@ -68,7 +68,7 @@ class BaseNode(Node):
     def cast_value(self, value=None):
         """ Cast (raw-)value as a datatype self, or another node
         """
-        if not value and not (isinstance(value, str) and self.keyword=='str'):  # '' is a value of a string node
+        if value is None or (isinstance(value, str) and value=='' and self.keyword!='str'):  # 0, False and (for strings) '' are values
             if self.value is None:
                 value = self.value_raw
             else:
@@ -130,10 +130,16 @@ class BaseNode(Node):
                         raise Exception("Could not convert raw value to type:",self.code,value)
         return value
 
+    def _has_raw(self):
+        """ A raw value is present unless it is None or the empty placeholder of a reference, function or expression
+            (a result that is zero or false is a value)
+        """
+        return self.value_raw is not None and not (isinstance(self.value_raw, str) and self.value_raw=='')
+
     def set_value(self, value=None):
         """ Set value using value_raw or arbitrary value
         """
-        if value is None and self.value_raw:
+        if value is None and self._has_raw():
             self.value = self.cast_value()
         elif value is not None:
             self.value = value
